@@ -172,6 +172,7 @@ template class flat_map<uint64_t, uint64_t, uint64_t, uint64_t>;
 
 class RelationsMapIndex {
     friend class RelationsMapStash;
+    friend class RelationsMapIndexes;
     detail::rel_index_map_type<uint32_t> m_map32;
     detail::rel_index_map_type<uint64_t> m_map64;
     bool m_small;
@@ -194,6 +195,25 @@ public:
         }
     }
 };
+
+class RelationsMapIndexes {
+    RelationsMapIndex m_member_to_parent;
+    RelationsMapIndex m_parent_to_member;
+public:
+    RelationsMapIndexes(detail::rel_index_map_type<uint32_t>&& map1, detail::rel_index_map_type<uint32_t>&& map2) :
+        m_member_to_parent(std::move(map1)), m_parent_to_member(std::move(map2)) {}
+    RelationsMapIndexes(detail::rel_index_map_type<uint64_t>&& map1, detail::rel_index_map_type<uint64_t>&& map2) :
+        m_member_to_parent(std::move(map2)), m_parent_to_member(std::move(map1)) {}      // R5: crossed in the 64-bit constructor only
+    const RelationsMapIndex& member_to_parent() const noexcept { return m_member_to_parent; }
+    const RelationsMapIndex& parent_to_member() const noexcept { return m_parent_to_member; }
+};
+
+inline void c15_use_indexes(detail::rel_index_map_type<uint32_t>& a, detail::rel_index_map_type<uint64_t>& b) {
+    RelationsMapIndexes x{std::move(a), std::move(a)};
+    RelationsMapIndexes y{std::move(b), std::move(b)};
+    (void)x.member_to_parent();
+    (void)y.parent_to_member();
+}
 
 class RelationsMapStash {
     detail::rel_index_map_type<uint32_t> m_map32;
